@@ -370,7 +370,7 @@ func genCompare(c *Ctx, r *genReq, modeA, modeB string, classA string, a []byte,
 			// gatherTransitiveDependencies walks file_to_generate in request order, so
 			// the File entries of the response come in that order; names and contents agree
 			c.Stat("gen_F17_order_only")
-			c.Known("F17", "C40", "order of response File entries follows file_to_generate; same names and contents")
+			c.Known("FH3", "C40", "order of response File entries follows file_to_generate; same names and contents")
 			return
 		}
 		c.PropFail("C40", fmt.Sprintf("generated file list differs between %s and %s: %v vs %v", modeA, modeB, na, nb), r.desc)
